@@ -72,13 +72,35 @@ func c03Handler(env *c03Env) Handler {
 			return UpAction{Reply: r[:len(r)-3]}
 		case "closer":
 			return UpAction{CloseBefore: true}
+		case "wrongq":
+			// a well-formed reply with the right ID - to another question (a confused or hostile upstream)
+			m := KeyedAnswer(q.Msg, "c03", uint32(tok), 60, 0)
+			other := append(vfkit.Name{[]byte("not-what-you-asked")}, q.Msg.Q[0].Name...)
+			m.Q[0].Name = other
+			for i := range m.An {
+				m.An[i].Owner = other
+			}
+			return UpAction{Reply: EncodeMsg(m)}
+		case "oddhdr":
+			// the right answer under a header that does not mirror the forwarded query: RD cleared, another opcode, AA/AD set
+			m := KeyedAnswer(q.Msg, "c03", uint32(tok), 60, 0)
+			m.Bits &^= vfkit.BitRD
+			m.Bits |= vfkit.BitAA | vfkit.BitAD
+			if tok%2 == 0 {
+				m.Bits |= uint16(2+tok%3) << 11
+			}
+			return UpAction{Reply: EncodeMsg(m)}
+		case "noq":
+			m := KeyedAnswer(q.Msg, "c03", uint32(tok), 60, 0)
+			m.Q = nil
+			return UpAction{Reply: EncodeMsg(m)}
 		}
 		return UpAction{} // silence
 	}
 }
 
 var c03Suffix = map[string][]string{
-	"reply": {"ok", "test"}, "rcode": {"ok", "test"}, "garbage": {"ok", "test"}, "silence": {"ok", "test"},
+	"reply": {"ok", "test"}, "rcode": {"ok", "test"}, "garbage": {"ok", "test"}, "silence": {"ok", "test"}, "wrongq": {"ok", "test"}, "noq": {"ok", "test"}, "oddhdr": {"ok", "test"},
 	"truncgarbage": {"tcpup", "test"}, "closer": {"tcpup", "test"}, "dead": {"dead", "test"},
 	"unrouted": {"nowhere", "example"}, "noaction": {"noaction", "test"},
 }
@@ -220,7 +242,7 @@ func TestVfC03(t *testing.T) {
 		cacheOn := rapid.Bool().Draw(t, "cacheOn")
 		withSilence := rapid.IntRange(0, 3).Draw(t, "withSilence") == 0
 		n := rapid.IntRange(1, 60).Draw(t, "batch")
-		outcomes := []string{"reply", "reply", "rcode", "garbage", "truncgarbage", "closer", "dead", "unrouted", "noaction"}
+		outcomes := []string{"reply", "reply", "rcode", "garbage", "truncgarbage", "closer", "dead", "unrouted", "noaction", "wrongq", "noq", "oddhdr"}
 		if withSilence {
 			outcomes = append(outcomes, "silence", "silence")
 		}
@@ -248,7 +270,7 @@ func TestVfC03(t *testing.T) {
 				c.expectRcode = 4
 			case c.outcome == "unrouted" || c.outcome == "noaction":
 				c.expectRcode = 5
-			case c.outcome == "reply":
+			case c.outcome == "reply" || c.outcome == "oddhdr":
 				c.expectRcode = 0
 			case c.outcome == "rcode":
 				c.expectRcode = int(c.rcode)
@@ -314,7 +336,13 @@ func TestVfC03(t *testing.T) {
 					t.Fatalf("response question %s differs from the query's first question %s; %s", r.Q[0].String(), q.Q[0].String(), desc)
 				}
 			}
-			if r.Rcode() != c.expectRcode {
+			if (c.outcome == "wrongq" || c.outcome == "noq") && !c.unsupported {
+				// what the proxy makes of such a reply is its choice (relay the records under the query's own question, or
+				// SERVFAIL) - the header and question oracles above are what matters here
+				if r.Rcode() != 0 && r.Rcode() != 2 {
+					t.Fatalf("rcode %d after an upstream reply to another question; %s", r.Rcode(), desc)
+				}
+			} else if r.Rcode() != c.expectRcode {
 				t.Fatalf("rcode %d, expected %d; %s", r.Rcode(), c.expectRcode, desc)
 			}
 			if c.expectRcode == 0 && c.outcome == "reply" && !r.Has(vfkit.BitTC) { // a UDP response may have been truncated to fit (C09)
